@@ -348,8 +348,13 @@ def key_match(ctx, ev):
         if tbl is not None and "_verify_signing_key_type" not in impl.methods:
             continue
         import contextlib
-        with (R.lenient("decided on the decision table of sign() (C09-D3)") if tbl is not None else contextlib.nullcontext()):
-            _key_check_helper_rules(ctx, ev, impl, sg, values)
+        try:
+            with (R.lenient("decided on the decision table of sign() (C09-D3)") if tbl is not None else contextlib.nullcontext()):
+                _key_check_helper_rules(ctx, ev, impl, sg, values)
+        except AnalysisError as e_:
+            if tbl is None:
+                raise
+            R.info(f"proof form of the key check not applicable ({e_}); decided on the decision table of sign() (C09-D3)")
 
 def no_output_on_refusal(ctx, ev):
     R = ctx.report
